@@ -2018,6 +2018,11 @@ impl<'a> Iterator for ModuleEntryIterator<'a, '_> {
 pub struct ModuleGraphErrorIterator<'a, 'options> {
   iterator: ModuleEntryIterator<'a, 'options>,
   next_errors: Vec<ModuleGraphError>,
+  /// Missing modules that were surfaced at an import of them.
+  surfaced_missing: HashSet<&'a ModuleSpecifier>,
+  /// Missing modules that were visited, but not reported because
+  /// they are expected to be surfaced at an import of them.
+  skipped_missing: Vec<(&'a ModuleSpecifier, &'a ModuleError)>,
 }
 
 impl<'a, 'options> ModuleGraphErrorIterator<'a, 'options> {
@@ -2025,11 +2030,13 @@ impl<'a, 'options> ModuleGraphErrorIterator<'a, 'options> {
     Self {
       iterator,
       next_errors: Default::default(),
+      surfaced_missing: Default::default(),
+      skipped_missing: Default::default(),
     }
   }
 
   fn check_resolution(
-    &self,
+    &mut self,
     module: &Module,
     kind: ResolutionKind,
     specifier_text: &str,
@@ -2062,13 +2069,21 @@ impl<'a, 'options> ModuleGraphErrorIterator<'a, 'options> {
         } else if self.iterator.follow_dynamic {
           let resolved_specifier =
             self.iterator.graph.resolve(&resolved.specifier);
-          let module_slot =
-            self.iterator.graph.module_slots.get(resolved_specifier);
-          if let Some(ModuleErrorKind::Missing {
-            specifier,
-            maybe_referrer,
-          }) = module_slot.and_then(|m| m.as_err_kind())
+          let module_slot = self
+            .iterator
+            .graph
+            .module_slots
+            .get_key_value(resolved_specifier);
+          if let Some((
+            slot_specifier,
+            ModuleErrorKind::Missing {
+              specifier,
+              maybe_referrer,
+            },
+          )) = module_slot
+            .and_then(|(k, m)| m.as_err_kind().map(|kind| (k, kind)))
           {
+            self.surfaced_missing.insert(slot_specifier);
             // we want to surface module missing errors as dynamic missing errors
             if is_dynamic {
               Some(ModuleGraphError::ModuleError(
@@ -2111,7 +2126,7 @@ impl Iterator for ModuleGraphErrorIterator<'_, '_> {
       let follow_dynamic = self.iterator.follow_dynamic;
       let prefer_fast_check_graph = self.iterator.prefer_fast_check_graph;
 
-      if let Some((_, module_entry)) = self.iterator.next() {
+      if let Some((specifier, module_entry)) = self.iterator.next() {
         match module_entry {
           ModuleEntryRef::Module(module) => {
             if kind.include_types()
@@ -2166,7 +2181,9 @@ impl Iterator for ModuleGraphErrorIterator<'_, '_> {
             // because they will be resolved in place
             let should_ignore = follow_dynamic
               && matches!(error.as_kind(), ModuleErrorKind::Missing { .. });
-            if !should_ignore {
+            if should_ignore {
+              self.skipped_missing.push((specifier, error));
+            } else {
               self
                 .next_errors
                 .push(ModuleGraphError::ModuleError(error.clone()));
@@ -2177,6 +2194,15 @@ impl Iterator for ModuleGraphErrorIterator<'_, '_> {
           }
         }
       } else {
+        // surface the missing modules that no import surfaced in place
+        // (ex. a missing root)
+        for (specifier, error) in self.skipped_missing.drain(..).rev() {
+          if !self.surfaced_missing.contains(specifier) {
+            self
+              .next_errors
+              .push(ModuleGraphError::ModuleError(error.clone()));
+          }
+        }
         break; // no more modules, stop searching
       }
     }
